@@ -211,7 +211,11 @@ def check_c14(prop, tier, seed):
                      runkw=dict(n_eff=60, discard_exploration=False)),
                 dict(kind='two', seed=63 + s, mseed=s, n_batch=4, n_live=20, n_networks=1,
                      runkw=dict(n_eff=80, discard_exploration=True)),
-                dict(kind='wrap', seed=64 + s, mseed=s, n_batch=4, n_live=20, periodic=[0], blob='array')]
+                dict(kind='wrap', seed=64 + s, mseed=s, n_batch=4, n_live=20, periodic=[0], blob='array'),
+                dict(kind='gauss', seed=65 + s, mseed=s, n_batch=4, n_live=20, prior='inplace', vectorized=True, blob='struct',
+                     runkw=dict(n_eff=80, discard_exploration=True)),
+                dict(kind='plateau', seed=66 + s, mseed=s, n_batch=4, n_live=20, prior='PriorArr', blob='bool2',
+                     runkw=dict(n_eff=60, discard_exploration=True))]
         if tier == 'thorough':
             cfgs += [dict(kind=k, seed=70 + s + i, mseed=s + i, n_batch=4, n_live=20, blob=b,
                           runkw=dict(n_eff=100, discard_exploration=bool(i % 2)))
